@@ -1771,3 +1771,119 @@ def _order_beliefs(repo, clause, callee, P):
                                         if bad else "the ends of the descending list consistently with the contract"),
                       slot="order-belief", positive=bad is not None))
     return obs
+
+
+def A18d_option_decisions(repo, clause):
+    """Which operation runs for which combination of options: every optional stage runs exactly when its option was given (truth
+    table of the stage's guards over given / not given), the find/replace decision over the four combinations of -f and -r, the minimum
+    image factor as a monomial, and flag defaults."""
+    import itertools
+    fn = repo.fn("mofun_cli")
+    obs = []
+
+    class Unk(Exception):
+        pass
+
+    def tv(e, given):
+        if isinstance(e, ast.BoolOp):
+            vals = [tv(v, given) for v in e.values]
+            return all(vals) if isinstance(e.op, ast.And) else any(vals)
+        if isinstance(e, ast.UnaryOp) and isinstance(e.op, ast.Not):
+            return not tv(e.operand, given)
+        if isinstance(e, ast.Compare) and len(e.ops) == 1 and isinstance(e.left, ast.Name) and e.left.id in given \
+                and isinstance(e.comparators[0], ast.Constant) and e.comparators[0].value is None:
+            if isinstance(e.ops[0], ast.Is):
+                return not given[e.left.id]
+            if isinstance(e.ops[0], ast.IsNot):
+                return given[e.left.id]
+        if isinstance(e, ast.Name) and e.id in given:
+            return given[e.id]
+        raise Unk(ast.unparse(e))
+
+    def runs(node, given, only):
+        val = True
+        for t, pol, k in norm_guards(fn, node):
+            names = {x.id for x in ast.walk(t) if isinstance(x, ast.Name)}
+            if not names & set(only):
+                continue
+            val = val and (tv(t, given) == pol)
+        return val
+
+    stages = []
+    for c in calls_in(fn):
+        nm = call_name(c)
+        if nm == "replicate" and c.args and isinstance(c.args[0], ast.Name) and c.args[0].id == "replicate":
+            stages.append(("replicate", c, ["replicate"], lambda g: g["replicate"]))
+        elif nm == "replicate":
+            stages.append(("mic-replicate", c, ["mic"], lambda g: g["mic"]))
+        elif nm == "assign_pair_params_to_structure":
+            stages.append(("pair-coeffs", c, ["pp"], lambda g: g["pp"]))
+        elif nm == "replace_pattern_in_structure":
+            stages.append(("replace", c, ["find_path", "replace_path"], lambda g: g["find_path"] and g["replace_path"]))
+        elif nm == "find_pattern_in_structure":
+            stages.append(("find-only", c, ["find_path", "replace_path"], lambda g: g["find_path"] and not g["replace_path"]))
+    ch = [n for n in fn.own_nodes() if isinstance(n, ast.Assign) and isinstance(n.targets[0], ast.Attribute) and n.targets[0].attr == "charges"]
+    if ch:
+        stages.append(("charge-override", ch[0], ["chargefile"], lambda g: g["chargefile"]))
+    floor("A18d", "optional stages of the command line", len(stages), 5)
+    for name, node, opts, want in stages:
+        wrong = []
+        try:
+            for bits in itertools.product((False, True), repeat=len(opts)):
+                g = dict(zip(opts, bits))
+                if runs(node, g, opts) != bool(want(g)):
+                    wrong.append(g)
+        except Unk as e:
+            obs.append(Ob("A18d", clause, fn, node, False, "stage %s: guard `%s` is outside the option-table language" % (name, e), slot="stage-table:%s" % name, undecided=True))
+            continue
+        obs.append(Ob("A18d", clause, fn, node, not wrong,
+                      "stage `%s` runs exactly when %s" % (name, {"replace": "-f and -r are both given", "find-only": "-f is given without -r"}.get(name, "its option is given")) + (
+                          "" if not wrong else " -- WRONG for %s: the stage %s" % (
+                              {k: ("given" if v else "absent") for k, v in wrong[0].items()}, "is skipped" if want(wrong[0]) else "runs anyway")),
+                      slot="stage-table:%s" % name, positive=True))
+    # minimum-image factor as a monomial: 2 * mic / diag(cell), inside ceil
+    mic_c = [c for c in calls_in(fn) if call_name(c) == "replicate" and c.args and "mic" in ast.unparse(expand(fn, c.args[0]))]
+    if mic_c:
+        e = expand(fn, mic_c[0].args[0])
+        inner = [x for x in ast.walk(e) if isinstance(x, ast.Call) and call_name(x) == "ceil" and x.args]
+        if inner:
+            def mono(x):
+                if const_value(x) is not None and isinstance(const_value(x), (int, float)):
+                    return float(const_value(x)), {}
+                if isinstance(x, ast.Name):
+                    return 1.0, {x.id: 1}
+                if isinstance(x, ast.Call) and call_name(x) == "diag":
+                    return 1.0, {"diag": 1}
+                if isinstance(x, ast.BinOp) and isinstance(x.op, (ast.Mult, ast.Div)):
+                    c1, a1 = mono(x.left)
+                    c2, a2 = mono(x.right)
+                    sgn = 1 if isinstance(x.op, ast.Mult) else -1
+                    if sgn == -1 and c2 == 0:
+                        raise Unk("div0")
+                    out = dict(a1)
+                    for k, v in a2.items():
+                        out[k] = out.get(k, 0) + sgn * v
+                    return (c1 * c2 if sgn == 1 else c1 / c2), {k: v for k, v in out.items() if v}
+                raise Unk(ast.unparse(x))
+            try:
+                cf, at = mono(inner[0].args[0])
+                okm = abs(cf - 2.0) < 1e-12 and at == {"mic": 1, "diag": -1}
+                obs.append(Ob("A18d", clause, fn, inner[0], okm,
+                              "minimum-image factor = ceil(%g * %s)%s" % (cf, " * ".join("%s^%d" % kv for kv in sorted(at.items())),
+                                                                            "" if okm else " -- must be ceil(2 * mic / cell length): every cell length has to reach TWICE the cutoff"),
+                              slot="mic-monomial", positive=True))
+            except Unk:
+                pass
+    # a flag is off unless given; every constant default of an option equals the default in the signature
+    sig = fn.param_defaults()
+    for d in fn.node.decorator_list:
+        if not (isinstance(d, ast.Call) and call_name(d) in ("option",)):
+            continue
+        p = _click_dest(d)
+        dv = kwarg(d, "default")
+        if dv is None or p not in sig:
+            continue
+        a, b = const_value(dv), const_value(sig[p])
+        if isinstance(dv, ast.Constant) and isinstance(sig[p], ast.Constant):
+            obs.append(Ob("A18d", clause, fn, d, a == b, "option default of `%s` is %r, signature default %r" % (p, a, b), slot="default-agreement:%s" % p, positive=True))
+    return obs
